@@ -339,7 +339,7 @@ func atomsEq(in, out []Atom, ctx *Ctx) (int, string) {
 			if why == "tokens-changed" && (in[i].K == 'w' || out[i].K == 'w') {
 				return i, "whitespace:significant-changed"
 			}
-			if in[i].Lbl != "" {
+			if in[i].Lbl != "" && !strings.HasPrefix(why, in[i].Lbl) {
 				return i, in[i].Lbl + why
 			}
 			return i, why
